@@ -173,6 +173,46 @@ func c20File(c *run.Ctx, idx uint64) {
 	desc := func() map[string]interface{} {
 		return map[string]interface{}{"document": doc.String(), "size": size, "outSize": outSize}
 	}
+	if r.Chance(1, 4) {
+		// The conversion before this one failed half way: a document whose first
+		// paths are translucent (the opacities of the table, in another order) and
+		// whose last path has path data that does not parse, or that uses a seventh
+		// distinct opacity. Nothing of it may show in this conversion.
+		var bad strings.Builder
+		fmt.Fprintf(&bad, `<svg xmlns="http://www.w3.org/2000/svg" width="24" height="24" viewBox="0 0 24 24">`+"\n")
+		k0 := r.Intn(len(opacities))
+		nOp := r.Range(1, len(opacities))
+		sevenOpacities := r.Bool()
+		if sevenOpacities {
+			nOp = len(opacities)
+		}
+		for k := 0; k < nOp; k++ {
+			fmt.Fprintf(&bad, `  <path opacity="%s" d="M2 2h4v4z"/>`+"\n", f(opacities[(k0+k)%len(opacities)]))
+		}
+		if sevenOpacities {
+			fmt.Fprintf(&bad, `  <path opacity=".71" d="M2 2h4v4z"/>`+"\n")
+		} else {
+			fmt.Fprintf(&bad, `  <path d="M2 2h4v4x1 2z"/>`+"\n")
+		}
+		bad.WriteString("</svg>\n")
+		badName := filepath.Join(run.ScratchDir(), fmt.Sprintf("icon-%d-bad.svg", idx))
+		if werr := os.WriteFile(badName, []byte(bad.String()), 0644); werr == nil {
+			var sink bytes.Buffer
+			var badErr error
+			okBad := c.Guard("ParseFile(failing document)", func() interface{} { return map[string]interface{}{"document": bad.String()} }, func() {
+				_, badErr = mdicons.ParseFile(badName, "action", "verif_bad", 24, 48, &sink)
+			})
+			os.Remove(badName)
+			if !okBad {
+				return
+			}
+			if badErr != nil {
+				c.Count("after_a_conversion_that_failed_half_way", 1)
+			} else {
+				c.Count("the_conversion_meant_to_fail_succeeded", 1)
+			}
+		}
+	}
 	var out bytes.Buffer
 	var err error
 	if !c.Guard("ParseFile", func() interface{} { return desc() }, func() {
